@@ -153,7 +153,7 @@ def step_transfer(ctx, sim, t, now, serials, la, lb, order):
 def run(ctx, build):
     R = ctx.try_runner('Tftp')
     rng = ctx.rng
-    nsess = 1200 if ctx.thorough else 45
+    nsess = 4000 if ctx.thorough else 45
     if ctx.widen:
         nsess *= 2
     for i in range(nsess):
